@@ -12,11 +12,16 @@ import lib
 LETTER_POOL = "abcdfghxyzABZ"
 NONASCII = ["é", "ß", "漢", "🙂", "ñ"]
 OTHER = "{}<>:.-+*/,!?&~^|%"
+# characters str.splitlines() treats as line ends although CMake does not (only where asked for: C05)
+EXOTIC_NONASCII = ["\u2028", "\x85", "\u2029"]
+EXOTIC_OTHER = "\x0c\x0b\x1c"
 
 
-def concretize(syms, seed):
+def concretize(syms, seed, exotic=False):
     """class symbols -> (text, offsets) where offsets[i] = char offset of symbol i (0-based), offsets[len] = len(text)."""
     rng = random.Random(seed)
+    nonascii = NONASCII + (EXOTIC_NONASCII if exotic else [])
+    other = OTHER + (EXOTIC_OTHER if exotic else "")
     out = []
     offs = []
     n = 0
@@ -29,9 +34,9 @@ def concretize(syms, seed):
         elif s == "1":
             c = rng.choice("0123456789")
         elif s == "e":
-            c = rng.choice(NONASCII)
+            c = rng.choice(nonascii)
         elif s == "o":
-            c = rng.choice(OTHER)
+            c = rng.choice(other)
         else:
             c = s
         out.append(c)
@@ -110,16 +115,18 @@ def real_lex(text):
 
 
 def real_parse(text):
-    """flat commands from the public parse tree, or the exception text"""
-    from antlr4 import InputStream, CommonTokenStream
-    from cminx.parser.CMakeLexer import CMakeLexer
+    """flat commands from the public parse tree of a Documenter reading a file with this text (so that the
+    Documenter's own decoding / input handling is part of what is observed), or the exception text"""
     from cminx.parser.CMakeParser import CMakeParser
-    from cminx.parser import ParserErrorListener
+    from cminx.documenter import Documenter
+    import agg
     err = io.StringIO()
+    path = agg._tmpfile()
+    with open(path, "w", encoding="utf-8", newline="") as fh:
+        fh.write(text)
     with contextlib.redirect_stderr(err):
-        p = CMakeParser(CommonTokenStream(CMakeLexer(InputStream(text))))
-        p.addErrorListener(ParserErrorListener())
         try:
+            p = Documenter(path, "t", "m", agg.make_settings()).parser
             tree = p.cmake_file()
         except BaseException as e:
             return None, "%s: %s" % (type(e).__name__, str(e)[:100]), err.getvalue()
@@ -170,7 +177,7 @@ def _chunk(args):
     pid, chunk, seed = args
     out = []
     for n, beh in chunk:
-        text, offs = concretize(beh["text"], seed * 1000003 + n)
+        text, offs = concretize(beh["text"], seed * 1000003 + n, exotic=(pid == "C05"))
         r = {"n": n, "text": text, "viol": None, "drift": None}
         if beh["fault"]["pos"] == 0:
             cmds, exc, _ = real_parse(text)
